@@ -272,7 +272,16 @@ func (g *exGen) slot(doc, rank, depth int) map[string]interface{} {
 	k := g.r.intn(100)
 	if k < 45 {
 		if t, ok := g.forward(rank); ok {
-			return g.refTo(doc, t)
+			h := g.refTo(doc, t)
+			// siblings of a schema `$ref` are not part of what it denotes ("$ref replaces its holder"): they must neither
+			// survive nor leak into the expansion
+			switch g.r.intn(12) {
+			case 0:
+				h["x-nullable"] = true
+			case 1:
+				h["description"] = g.label("sibling")
+			}
+			return h
 		}
 	}
 	if depth <= 0 || k >= 75 {
@@ -974,6 +983,7 @@ type exCall struct {
 	Opts     exOpts                     `json:"opts"`
 	Missing  []string                   `json:"missing,omitempty"`
 	Spelling string                     `json:"spelling,omitempty"` // RelativeBase as the caller writes it (default: Root)
+	Twice    bool                       `json:"twice,omitempty"`    // expand_spec: the same typed root is expanded a second time
 	Kind     string                     `json:"kind,omitempty"`     // resolve: Schema Parameter Response PathItem Items
 	Ref      string                     `json:"ref,omitempty"`
 	RootMode string                     `json:"root_mode,omitempty"` // typed generic none
@@ -1161,7 +1171,11 @@ func exExecWith(c *exCall, global bool) (o *exOutcome) {
 			fail(fmt.Errorf("decode root: %w", err))
 			return
 		}
-		result(sw, spec.ExpandSpec(sw, opts))
+		err := spec.ExpandSpec(sw, opts)
+		if err == nil && c.Twice {
+			err = spec.ExpandSpec(sw, opts)
+		}
+		result(sw, err)
 	case "resolve":
 		ref, err := spec.NewRef(c.Ref)
 		if err != nil {
@@ -1748,11 +1762,13 @@ func genExpandCases(r *rng, n int, tier string, cw *caseWriter) {
 		// 2. resolution
 		for _, rc := range exResolveCases(rf, g, 8) {
 			mode := rf.pick([]string{"typed", "generic", "none"})
-			c := g.call("resolve", exOpts{})
+			// the options a caller may pass along must not change what a reference designates (nor turn "nothing" into a value)
+			ro := exOpts{Cont: rf.chance(1, 3), Abs: rf.chance(1, 4)}
+			c := g.call("resolve", ro)
 			c.Kind, c.Ref, c.RootMode = rc.Kind, rc.Ref, mode
 			res := exRun(c)
 			view, _ := exGoView(g, c, res, false)
-			emit(orderedMap{{"op", "resolve"}, {"nt", true}, {"kind", rc.Kind}, {"docs", g.Docs}, {"root", g.Root}, {"ref", rc.Ref}, {"root_mode", mode},
+			emit(orderedMap{{"op", "resolve"}, {"nt", true}, {"kind", rc.Kind}, {"docs", g.Docs}, {"root", g.Root}, {"ref", rc.Ref}, {"root_mode", mode}, {"opts", ro},
 				{"missing", append([]string{}, g.Missing...)}, {"expect", rc.Tag}, {"go", view}})
 			if rc.Kind == "Schema" && strings.HasPrefix(rc.Ref, "#") && rf.chance(1, 2) {
 				c2 := g.call("resolve_ref", exOpts{})
